@@ -293,6 +293,12 @@ class Run:
             if not B.externs_realisable(summ): continue      # an extern type whose size is not a multiple of its alignment cannot be supplied
             if len(ws) >= K: break
             w = B.Witness(i, cfg['template'], a, summ, files['m.rs'])
+            if cfg.get('marks'):
+                bad = B.marks_mismatch(w)
+                info['marks_checked'] = info.get('marks_checked', 0) + 1
+                if bad:
+                    self.violations.append({'slice': 'engine-b', 'template': cfg['template'], 'query': 'emitted-visibility-derives-packing-docs', 'args': [to_i64(x) for x in a],
+                                            'expected': 'visibility, derives, packing and doc comments of the resolved model', 'native': bad})
             if cfg.get('abi'):
                 bad = B.abi_mismatch(w)
                 info['abi_checked'] += 1
